@@ -79,6 +79,19 @@ class RejectionMonitor:
             rule.activate_with(fl.Minimum(), fl.Maximum())
             rule.trigger(fl.Minimum())
             ctx.hit("accepted rule evaluated")
+            # ... whatever kind of number the input variables hold: a Python int, a plain list, an integer array
+            ins = {}
+            self.inputs_of(rule.antecedent.expression, ins)
+            saved = {k: v.value for k, v in ins.items()}
+            try:
+                for form, make in (("python int", lambda v: 1), ("list", lambda v: [0.25, 0.75]), ("integer array", lambda v: np.array([0, 1, 2]))):
+                    for v in ins.values():
+                        v.value = make(v)
+                    rule.activate_with(fl.Minimum(), fl.Maximum())
+                    ctx.hit("accepted rule evaluated on " + form + " values")
+            finally:
+                for k, v in ins.items():
+                    v.value = saved[k]
         except Exception as ex:
             mech = f"an accepted rule cannot be evaluated ({type(ex).__name__})"
             if isinstance(ex, ValueError) and ("expected xy to contain coordinate pairs" in str(ex) or "coefficients (one for each input variable" in str(ex)):
@@ -88,6 +101,15 @@ class RejectionMonitor:
             for v, n in outs.values():
                 del v.fuzzy.terms[n:]
             rule.deactivate()
+
+    def inputs_of(self, node, out):
+        fl = self.fl
+        if isinstance(node, fl.Proposition):
+            if isinstance(node.variable, fl.InputVariable):
+                out[id(node.variable)] = node.variable
+        elif isinstance(node, fl.Operator):
+            self.inputs_of(node.left, out)
+            self.inputs_of(node.right, out)
 
     def _after_load_rules(self, args, kwargs, token, result, exc):
         ctx, block = self.ctx, args[0]
